@@ -12,13 +12,21 @@ import Mathlib.Algebra.Order.Field.Rat
 * `rvInv_step`, `realVals_run` — `RealVals` is an invariant, for any `nn`, under
   - `OpDim d op`: all told values have `d` components (monotonicity of `scaleY`), and
   - `OpInBox s op` / `RunInBox`: every told abscissa lies inside the x-box `bboxX` of the state it
-    is told to, so that `scaleX` is constant between two batch `tell_many`.  This hypothesis is
-    FORCED: the batch path of `tell_many` shrinks the x-box to the span of the points it knows
-    (`bboxX := (min, max)`, `scaleX := max - min`), a later `tell` outside that span (but inside
-    the learner's bounds) enlarges `scaleX`, and `tell` never recomputes losses for a change of
-    `scaleX`; see the counterexample at the end of the file.  `1 ≤ factor` is not needed.
+    is told to, so that `scaleX` is constant between two batch `tell_many`.  A `tell` outside the
+    box enlarges `scaleX`, and `tell` never recomputes losses for a change of `scaleX`.
+    Before the repair `fix: Learner1D.tell_many batch path shrank the x-scale to the range of the
+    points` this hypothesis bit INSIDE the domain: the batch path shrank the x-box to the span of
+    the points it knew, and a later `tell` outside that span (but inside the learner's bounds)
+    left stale entries.  Since the repair the box always contains the domain, so for histories
+    whose points lie in `[lo, hi]` the hypothesis is a CONSEQUENCE of the in-bounds condition
+    (`runInBox_of_valid_init` in `L1DValid`: `ValidOps → RunInBox`, no end-point proviso), and the
+    property theorems (`Props/C01.lean`) do not mention it.  It is kept here as the hypothesis of the
+    state-level / invariant-free form because it is still what is needed for histories that leave
+    the domain (out of the properties' scope): see the two examples at the end of the file.
+    `1 ≤ factor` is not needed.
   `realVals_run_bounded` is the special case of histories of `tell` inside `[lo, hi]`,
-  `tell_pending`, `ask`, `remove_unfinished` and loop-path `tell_many` (≤ 2 points, no `force`).
+  `tell_pending`, `ask`, `remove_unfinished` and loop-path `tell_many` (≤ 2 points, no `force`);
+  it is subsumed by `ValidOps` (which also allows batches), see `L1DValid`.
 * `exact_values_of_factor_one` — with `factor = 1` every evaluated interval holds exactly
   `getLoss lossFn s iv.1 iv.2`.
 * `getLoss_nn0` — for `nn = 0` the loss of an interval depends only on its end points.
@@ -750,5 +758,25 @@ example : lget (2, 3) ceState.losses = some (.fin (1 / 10)) ∧
   decide +kernel
 
 end formerCounterexample
+
+/-! ## what the in-box hypothesis is still needed for: points OUTSIDE the domain
+
+`RunInBox` cannot be dropped from `realVals_run` altogether: with bounds `[0, 10]`, `tell 2`,
+`tell 3`, then `tell 12` (outside the domain, hence outside the properties' quantifier) widens the
+x-scale from 10 to 12 without recomputing the entry of `(2, 3)`: it stays `1/10` although the loss
+recomputed on the final state is `1/12`.  For points inside the domain this cannot happen any more
+(`runInBox_of_valid_init`). -/
+section stillNeeded
+
+def ceOpsOut : List (Op Rat) := [.tell 2 [0], .tell 3 [0], .tell 12 [0]]
+
+def ceStateOut : State Rat := run ceLoss id (init (0 : Rat) 10 1 0 0) ceOpsOut
+
+example : lget (2, 3) ceStateOut.losses = some (.fin (1 / 10)) ∧
+    getLoss ceLoss ceStateOut 2 3 = .fin (1 / 12) ∧ (2, 3) ∈ pairs ceStateOut.xs ∧
+    ceStateOut.bboxX = (0, 12) := by
+  decide +kernel
+
+end stillNeeded
 
 end L1D
